@@ -763,7 +763,8 @@ class introduction(Method):
         # Test if the goal is already proved. An assumption (or variable) line
         # is cited by intros, so it can only be replaced by a line stating
         # exactly the same sequent, not by one with fewer hypotheses.
-        for item in cur_item.subproof.items:
+        # The last line (intros) is the conclusion of the new block and stays.
+        for item in cur_item.subproof.items[:-1]:
             new_id = state.find_goal(state.get_proof_item(item.id).th, item.id)
             if new_id is not None:
                 if item.rule != 'sorry' and state.get_proof_item(new_id).th != item.th:
